@@ -188,10 +188,54 @@ def run(tier, seed, only=None):
 
         run_obligations(rep, "DisplacementTransfer chain[%s]" % cn, obs, timeout, replay=dt_real,
                         family=lambda ob: "DisplacementTransfer: " + ob.meta["family"], levels=(1, 2))
+    aerostruct_level(rep, tier, timeout)
     rep.bounds = {"meshes": [c[0] for c in cfgs(tier)], "fem_origin": "symbolic in [0,1]"}
     rep.assumptions = ["real arithmetic", "moment reference point symbolic", "panel force acts at the panel's quarter-chord mid-span point of the deformed mesh"]
     return rep.finish("C11: force/moment conservation of LoadTransfer and MeshPointForces; zero/translation/first-order-rotation "
                       "identities of ComputeNodes -> ComputeTransformationMatrix -> DisplacementTransfer")
+
+
+def aerostruct_level(rep, tier, timeout):
+    """The real AerostructPoint executed through its own wiring: the loads that reach the structure are conservative with
+    respect to the sectional forces and the deformed mesh *of the same coupled group*; the deformed mesh fed to the
+    aerodynamics is mesh + rigid section motion of the structural state; zero state leaves the mesh unchanged."""
+    from props import groups
+    from symoas.sym import substitute
+
+    cfgl = [("symL_2x3", 2, 3, True)] + ([("full_3x3", 3, 3, False), ("symL_3x4", 3, 4, True)] if tier == "thorough" else [])
+    for (cn, nx, ny, symm) in cfgl:
+        s = K.surface(nx, ny, symm)
+        s.update({"thickness_cp": np.array([0.1, 0.2]), "twist_cp": np.zeros(2)})
+        G = groups.aerostruct_symbolic(s)
+        G.encode(rep)
+        pre = "AS_point_0.coupled."
+        loads = G.computed_for_guess[pre + "wing_loads.loads"]
+        F = G.vals[pre + "aero_states.panel_forces_surf.wing_sec_forces"]
+        dm = G.vals[pre + "wing.def_mesh.displacement_transfer.def_mesh"]
+        mesh = G.vals["wing.geometry.mesh.rotate.mesh"] if "wing.geometry.mesh.rotate.mesh" in G.vals else None
+        p = symarray("p", (3,))
+        w = S(s["fem_origin"])
+        spts = [[(ONE - w) * dm[0, j, k] + w * dm[nx - 1, j, k] for k in range(3)] for j in range(ny)]
+        Fn = vsum([[loads[j, k] for k in range(3)] for j in range(ny)])
+        Mn = vsum([[loads[j, 3 + k] for k in range(3)] for j in range(ny)] +
+                  [cross([spts[j][k] - p[k] for k in range(3)], [loads[j, k] for k in range(3)]) for j in range(ny)])
+        Fp = vsum([[F[i, j, k] for k in range(3)] for i in range(nx - 1) for j in range(ny - 1)])
+        Mp = []
+        for i in range(nx - 1):
+            for j in range(ny - 1):
+                a = [S(0.5) * (S(0.75) * dm[i, j, k] + S(0.25) * dm[i + 1, j, k]) + S(0.5) * (S(0.75) * dm[i, j + 1, k] + S(0.25) * dm[i + 1, j + 1, k]) for k in range(3)]
+                Mp.append(cross([a[k] - p[k] for k in range(3)], [F[i, j, k] for k in range(3)]))
+        Mp = vsum(Mp)
+        obs = idents("AerostructPoint loads: sum F", Fn, Fp, assume=G.assumed, meta={"family": "structural loads of the coupled group carry the total aerodynamic force of the same group"})
+        obs += idents("AerostructPoint loads: sum M about p", Mn, Mp, assume=G.assumed, meta={"family": "structural loads of the coupled group carry the total aerodynamic moment about any point (deformed mesh of the same group)"})
+        if mesh is not None:
+            flat = list(dm.ravel())
+            zero = {v.args[0]: ZERO for x in flat for v in __import__("symoas.sym", fromlist=["variables"]).variables([x]) if ".disp_aug[" in v.args[0]}
+            z = substitute(flat, zero)
+            for idx in np.ndindex(*dm.shape):
+                obs.append(oblig.Ob("AerostructPoint def_mesh at zero state %s" % list(idx), lhs=z[dm[idx].nid], rhs=mesh[idx], assume=G.assumed,
+                                    meta={"family": "zero structural state leaves the aerodynamic mesh of the coupled group unchanged"}))
+        run_obligations(rep, "real AerostructPoint group: transfer [%s]" % cn, obs, timeout, levels=(1, 2), family=lambda ob: "AerostructPoint: " + ob.meta["family"])
 
 
 def cnod_real(s):
